@@ -19,8 +19,10 @@ NAMESG = {"A": [0, 2, 1], "B": [1, 2, 0], "C": [0, 2, 1], "D": [2, 1, 0]}
 NAMES5 = {"A": [0, 1, 2, 3], "C": [0, 3, 2, 1], "D": [1, 3, 2, 0], "E": [1, 3, 0, 2], "B": [1, 2, 3, 0]}
 CONFIGS = [([4, 3, 5, 4], [2, 2], NAMES5), ([4, 6, 5], [2, 2], NAMESG), ([5, 6, 6], [2, 3], NAMESG), ([4, 5, 6], [2, 2], NAMES3), ([3, 4, 5], [1, 1], NAMES3), ([5, 4, 6], [2, 1], NAMES3), ([4, 6, 5], [1, 2], NAMES3),
            ([6, 5, 7], [3, 2], NAMES3), ([4, 4, 5, 6], [2, 2], NAMES4), ([3, 5, 4, 6], [1, 3], NAMES4), ([5, 4, 4, 5], [2, 1], NAMES4),
-           # over-decomposed grids: more processes than points along a direction in SOME layouts (blocks of length 0), no idle rank
-           ([2, 5, 4], [3, 2], NAMES3), ([5, 2, 3, 2], [2, 3], NAMES4)]
+           # over-decomposed grids: more processes than points along a direction in SOME layouts (blocks of length 0)
+           ([2, 5, 4], [3, 2], NAMES3), ([5, 2, 3, 2], [2, 3], NAMES4),
+           # ... and with data ranks that own nothing in ANY layout (they must still take part in every collective)
+           ([1, 4, 1], [2, 2], NAMES3)]
 
 
 def mc_cfg(hassave, maxlen, maxver, dump, view, intact="IntactNone"):
